@@ -107,11 +107,11 @@ PROPS["C07"] = dict(
 PROPS["C09"] = dict(
     level="proof",
     runner="C09",
-    model_files=["Base.v", "Assets.v", "Select.v", "Tir.v", "PlutusData.v"],
-    proof_files=["PlutusData_proofs.v"],
+    model_files=["Base.v", "Assets.v", "Select.v", "Tir.v", "PlutusData.v", "Surface.v", "Lower.v"],
+    proof_files=["PlutusData_proofs.v", "Lower_ctor.v"],
     check_files=["C09_check.v"],
     theorems=["C09_decode_encode", "C09_int_any_size", "C09_bytes_any_length", "C09_constr_tags",
-              "C09_fields_in_declaration_order", "C09_map_entries_in_order", "C09_list_elements_in_order"],
+              "C09_fields_in_declaration_order", "C09_map_entries_in_order", "C09_list_elements_in_order", "C09_constructor_is_named_case"],
     partial=["that the implementation's bytes are the model encoder's bytes is byte-for-byte correspondence (exhaustive on constructor index 0..140 and byte lengths 0..100), not a theorem about pallas"],
     trusted_base=TB_COMMON + ["pallas' CBOR writer is environment: the model re-implements heads, tags, definite arrays/maps, bignum tags and 64-byte chunking and is compared byte for byte",
                               "the front-end leg trusts the generator's own denotation (constructor index = case position, fields in declaration order)"],
@@ -218,7 +218,7 @@ PROPS["C02"] = dict(
 PROPS["C08"] = dict(
     level="proof", runner="C08", model_files=COMPILE_MODEL, proof_files=["Compile_proofs.v", "Compile_sorted.v", "Compile_redeemers.v", "Compile_accounts.v"], check_files=["Compile_check.v"],
     theorems=["C08_sorted_inputs_perm", "C08_sorted_inputs_sorted", "C08_index_is_rank", "C08_index_points_at_item", "C08_order_strict_total",
-              "C08_mint_redeemer_points_at_policy", "C08_mint_redeemer_needs_policy", "C08_reward_accounts_sorted", "C08_reward_index_is_ledger_rank"],
+              "C08_mint_redeemer_points_at_policy", "C08_mint_redeemer_needs_policy", "C08_reward_accounts_sorted", "C08_reward_index_is_ledger_rank", "C08_reward_redeemers_point_at_account"],
     partial=["the end-to-end equality of the witness set's redeemer map with the specification-side map is checked per case (clause 201); the theorems cover the mechanism: the looked-up list is the sorted permutation of the body inputs, the index found is the item's rank in the ledger's order, and a mint / burn redeemer carries the position of its own policy or the compilation fails"],
     trusted_base=COMPILE_TB, assumptions=["distinct reward accounts per withdrawal directive in generated cases"],
     keep_ids=_only(lambda i: i in (1, 2, 121, 122) or 200 <= i < 300),
@@ -291,7 +291,7 @@ PROPS["C13"] = dict(
 )
 PROPS["C17"] = dict(
     level="proof", runner="C17", needs_tx3c=True, model_files=FRONT_MODEL, proof_files=["Front_proofs.v", "Lower_names.v", "Analyze_names.v"], check_files=["Front_check.v"],
-    theorems=["C17_required_keys_are_declared", "C17_argument_keys_do_not_collide", "C17_lowercase_idempotent", "C17_reported_params_sorted", "C17_lower_by_name_unambiguous"],
+    theorems=["C17_required_keys_are_declared", "C17_argument_keys_do_not_collide", "C17_lowercase_idempotent", "C17_reported_params_sorted", "C17_lower_by_name_unambiguous", "C17_top_level_names_unique"],
     partial=["the theorems are about Lower.v; that the TII file written by tx3c publishes exactly the lower-cased declared names and embeds the IR that lowering produced is checked per emitted file (clauses 171-174)"],
     trusted_base=FRONT_TB + ["the TII is read from the file written by the tx3c binary built from /repo's current tree"],
     assumptions=[],
